@@ -10,6 +10,7 @@ import (
 	"path/filepath"
 	"sort"
 	"strings"
+	"syscall"
 	"time"
 
 	"github.com/kyleconroy/sqlc/internal/cmd"
@@ -68,7 +69,21 @@ type Case struct {
 	Known []string `json:"known,omitempty"`
 }
 
-var out = json.NewEncoder(os.Stdout)
+// The protocol stream goes to the original stdout; os.Stdout itself is redirected to /dev/null because
+// sqlc prints to it (unformatted source on a go/format failure, "unsupported reference type").
+var out = json.NewEncoder(protoStream())
+
+func protoStream() *os.File {
+	fd, err := syscall.Dup(1)
+	if err != nil {
+		panic(err)
+	}
+	f := os.NewFile(uintptr(fd), "proto")
+	if null, err := os.OpenFile(os.DevNull, os.O_WRONLY, 0); err == nil {
+		os.Stdout = null
+	}
+	return f
+}
 
 func emit(c Case) {
 	if c.Tags == nil {
